@@ -27,6 +27,7 @@ import (
 	"strconv"
 	"strings"
 	"syscall"
+	"time"
 
 	intoto "github.com/in-toto/in-toto-golang/in_toto"
 	pathspec "github.com/shibumi/go-pathspec"
@@ -191,9 +192,26 @@ func materialise(n *Node, at string) {
 // ---------------------------------------------------------------- inputs
 
 type Op struct {
-	Kind    string `json:"kind"` // write | delete | mkdir
+	Kind    string `json:"kind"` // write | delete | mkdir | rewrite
 	Path    string `json:"path"`
 	Content []byte `json:"content,omitempty"`
+	// rewrite: other bytes of the same length written in place, modification time
+	// unchanged: "restore" puts the old time back, "fixed" uses one fixed time
+	// before (prepOps) and after
+	Mtime string `json:"mtime,omitempty"`
+}
+
+var fixedTime = time.Unix(1700000000, 0)
+
+// before the first snapshot: files rewritten in "fixed" mode carry the fixed time already
+func prepOps(ops []Op) {
+	for _, op := range ops {
+		if op.Kind == "rewrite" && op.Mtime == "fixed" {
+			if err := os.Chtimes(op.Path, fixedTime, fixedTime); err != nil {
+				panic(err)
+			}
+		}
+	}
 }
 
 type Input struct {
@@ -223,7 +241,7 @@ func applyOps(t *Node, ops []Op) *Node {
 		}
 		name := p[len(p)-1]
 		switch op.Kind {
-		case "write":
+		case "write", "rewrite":
 			if c := dir.child(name); c != nil {
 				if c.Kind != "file" {
 					panic("write over non-file")
@@ -256,6 +274,32 @@ func execOps(ops []Op) error {
 		switch op.Kind {
 		case "write":
 			if err := os.WriteFile(op.Path, op.Content, 0o644); err != nil {
+				return err
+			}
+		case "rewrite":
+			fi, err := os.Stat(op.Path)
+			if err != nil {
+				return err
+			}
+			if fi.Size() != int64(len(op.Content)) {
+				return fmt.Errorf("rewrite of %s changes the size", op.Path)
+			}
+			f, err := os.OpenFile(op.Path, os.O_WRONLY, 0) // same inode, no truncation, same length
+			if err != nil {
+				return err
+			}
+			if _, err := f.Write(op.Content); err != nil {
+				f.Close()
+				return err
+			}
+			if err := f.Close(); err != nil {
+				return err
+			}
+			mt := fi.ModTime()
+			if op.Mtime == "fixed" {
+				mt = fixedTime
+			}
+			if err := os.Chtimes(op.Path, mt, mt); err != nil {
 				return err
 			}
 		case "delete":
@@ -421,7 +465,49 @@ func runImpl(in *Input) string {
 	}
 	return lib.Recover(func() string {
 		return withTree(in.Tree, func() string {
+			prepOps(in.Ops)
 			switch in.Call {
+			case "rerecord":
+				// two recordings in one process with file operations in between
+				m1, err := intoto.RecordArtifacts(in.Paths, in.Algs, in.Excl, in.Strips, in.Norm, in.Follow)
+				if err != nil {
+					return "ERR"
+				}
+				if err := execOps(in.Ops); err != nil {
+					return "OPS-FAILED " + err.Error()
+				}
+				m2, err := intoto.RecordArtifacts(in.Paths2, in.Algs, in.Excl, in.Strips, in.Norm, in.Follow)
+				if err != nil {
+					return "ERR"
+				}
+				return "OK" + lib.ShowArtifacts(d.artifacts(m1)) + lib.ShowArtifacts(d.artifacts(m2))
+			case "rematch":
+				// record, change files, then match the link made from the first record against the local files
+				paths := in.Paths
+				if len(paths) == 0 {
+					paths = []string{"."}
+				}
+				// the result is not needed (the link is built from the generator's ground truth); an error here is not the observable
+				_, _ = intoto.RecordArtifacts(paths, in.Algs, in.Excl, in.Strips, false, false)
+				if err := execOps(in.Ops); err != nil {
+					return "OPS-FAILED " + err.Error()
+				}
+				link := intoto.Link{Type: "link", Name: "x", Products: map[string]intoto.HashObj{}}
+				for k, h := range in.Products {
+					o := intoto.HashObj{}
+					for a, t := range h {
+						o[a] = untag(t)
+					}
+					link.Products[k] = o
+				}
+				a, b, c, err := intoto.InTotoMatchProducts(&link, in.Paths, in.Algs, in.Excl, in.Strips)
+				if err != nil {
+					return "ERR"
+				}
+				sort.Strings(a)
+				sort.Strings(b)
+				sort.Strings(c)
+				return "OK" + lib.ShowStrs(a) + lib.ShowStrs(b) + lib.ShowStrs(c)
 			case "record":
 				return unprivileged(in.Tree.hasUnreadable(), func() string {
 					m, err := intoto.RecordArtifacts(in.Paths, in.Algs, in.Excl, in.Strips, in.Norm, in.Follow)
@@ -555,12 +641,16 @@ func coqModel(in *Input) string {
 		return "(show_link_snapshots (in_toto_run " + c + " (fun _ _ => Some (" + in.After.coq() + ", @nil (str * jv))) " + in.Tree.coq() +
 			" (bs \"step\") " + lib.CoqStrList(in.Paths) + " " + lib.CoqStrList(in.Paths2) + " " + cmd + " " + lib.CoqStrList(in.Algs) +
 			" (@nil str) " + lib.CoqStrList(in.Strips) + " " + nf + "))"
-	case "startstop":
+	case "startstop", "rerecord": // two snapshots: the tree before and the tree after the operations
 		return "(show_link_snapshots (rbind (record_start " + c + " " + in.Tree.coq() + " (bs \"step\") " + lib.CoqStrList(in.Paths) + " " +
 			lib.CoqStrList(in.Algs) + " (@nil str) " + lib.CoqStrList(in.Strips) + " " + nf + ") (fun l => record_stop " + c + " true " +
 			in.After.coq() + " l " + lib.CoqStrList(in.Paths2) + " " + lib.CoqStrList(in.Algs) + " (@nil str) " + lib.CoqStrList(in.Strips) + " " + nf + ")))"
-	case "match":
-		return "(show_match (match_products " + c + " " + in.Tree.coq() + " " + coqTaggedArtifacts(in.Products) + " " + lib.CoqStrList(in.Paths) + " " +
+	case "match", "rematch":
+		t := in.Tree
+		if in.Call == "rematch" {
+			t = in.After
+		}
+		return "(show_match (match_products " + c + " " + t.coq() + " " + coqTaggedArtifacts(in.Products) + " " + lib.CoqStrList(in.Paths) + " " +
 			lib.CoqStrList(in.Algs) + " (@nil str) " + lib.CoqStrList(in.Strips) + "))"
 	}
 	return ""
@@ -836,7 +926,7 @@ func oracleVariant(in *Input, cleanRoot bool) string {
 	case "record":
 		_, a := oracleRecord(in.Tree, in, in.Paths, in.Excl, in.Strips, in.Norm, in.Follow, cleanRoot)
 		return a
-	case "run", "startstop":
+	case "run", "startstop", "rerecord":
 		_, a := oracleRecord(in.Tree, in, in.Paths, in.Excl, in.Strips, in.Norm, in.Follow, cleanRoot)
 		if a == "" || a == "ERR" {
 			return a
@@ -846,12 +936,16 @@ func oracleVariant(in *Input, cleanRoot bool) string {
 			return b
 		}
 		return "OK" + parseShown(a) + parseShown(b)
-	case "match":
+	case "match", "rematch":
 		paths := in.Paths
 		if len(paths) == 0 {
 			paths = []string{"."}
 		}
-		local, a := oracleRecord(in.Tree, in, paths, in.Excl, in.Strips, false, false, cleanRoot)
+		tree := in.Tree
+		if in.Call == "rematch" {
+			tree = in.After // the local files as they are when the match runs
+		}
+		local, a := oracleRecord(tree, in, paths, in.Excl, in.Strips, false, false, cleanRoot)
 		if a == "" || a == "ERR" {
 			return a
 		}
@@ -1617,6 +1711,101 @@ func genOps(r *lib.Rng, root *Node) []Op {
 	return ops
 }
 
+// ---- histories: files rewritten in place (same length, same modification time) between two snapshots ----
+
+func otherBytes(r *lib.Rng, old []byte) []byte {
+	nw := make([]byte, len(old))
+	pool := []byte("xyz!\r\nQ\x00\xfe")
+	for i := range nw {
+		if r.Chance(1, 2) {
+			nw[i] = old[i]
+		} else {
+			nw[i] = pool[r.Intn(len(pool))]
+		}
+	}
+	i := r.Intn(len(nw))
+	nw[i] = old[i] ^ 0x01 // certainly other bytes
+	return nw
+}
+
+func genHistory(r *lib.Rng, call string) (*Input, string) {
+	if call == "" {
+		call = []string{"rerecord", "rerecord", "run", "startstop", "rematch"}[r.Intn(5)]
+	}
+	budget := r.Range(4, 12)
+	root := genDir(r, "", 0, &budget)
+	root.Children = append(root.Children, &Node{Kind: "file", Name: "out.bin", Content: []byte("version-1\n")})
+	root.sortRec()
+	classes := assignTargets(r, root, false)
+	var all []located
+	root.all(nil, &all)
+	var files []located
+	for _, l := range all {
+		if l.n.Kind == "link" && (l.n.Target == "nowhere" || l.n.Target == l.n.Name || call == "rematch") {
+			l.n.Kind, l.n.Content, l.n.Target = "file", []byte("was-link"), ""
+		}
+		if l.n.Kind == "file" && len(l.n.data()) > 0 {
+			files = append(files, l)
+		}
+	}
+	delete(classes, "dangling")
+	delete(classes, "selfloop")
+	mode := "restore"
+	if r.Chance(1, 3) {
+		mode = "fixed"
+	}
+	in := &Input{Call: call, Tree: root, Algs: algChoices[r.Intn(7)], Excl: [][]string{nil, nil, nil, {"*.pub"}}[r.Intn(4)],
+		Strips: stripChoices[r.Intn(6)], Norm: r.Bool(), Follow: r.Bool(), Paths: []string{"."}}
+	if r.Chance(1, 4) {
+		in.Paths, _ = pickPaths(r, root)
+		if in.Paths == nil {
+			in.Paths = []string{"."}
+		}
+	}
+	in.Paths2 = in.Paths
+	r.Shuffle(len(files), func(i, j int) { files[i], files[j] = files[j], files[i] })
+	n := r.Range(1, 3)
+	touched := map[string]bool{}
+	for i := 0; i < n && i < len(files); i++ {
+		p := strings.Join(files[i].path, "/")
+		touched[p] = true
+		in.Ops = append(in.Ops, Op{Kind: "rewrite", Path: p, Content: otherBytes(r, files[i].n.data()), Mtime: mode})
+	}
+	if r.Chance(1, 3) { // mixed with ordinary creations and deletions
+		for _, op := range genOps(r, root) {
+			if !touched[op.Path] {
+				touched[op.Path] = true
+				in.Ops = append(in.Ops, op)
+			}
+		}
+	}
+	in.After = applyOps(root, in.Ops)
+	if call == "rematch" {
+		in.Norm, in.Follow = false, false
+		in.Paths2 = nil
+		if r.Bool() {
+			in.Paths = []string{}
+		}
+		// the link holds the products as they were before the files were rewritten
+		in.Products = map[string]map[string]string{}
+		paths := in.Paths
+		if len(paths) == 0 {
+			paths = []string{"."}
+		}
+		if local, st := oracleRecord(root, in, paths, in.Excl, in.Strips, false, false, false); st != "" && st != "ERR" {
+			for k, h := range local {
+				c := map[string]string{}
+				for a, v := range h {
+					c[a] = v
+				}
+				in.Products[k] = c
+			}
+		}
+	}
+	_ = classes
+	return in, "history-" + call + "-" + mode
+}
+
 func genRun(r *lib.Rng, call string) (*Input, string) {
 	budget := r.Range(4, 12)
 	root := genDir(r, "", 0, &budget)
@@ -1745,6 +1934,10 @@ func genCase(r *lib.Rng, i int) (*Input, string) {
 		return genBig(r, 2)
 	case i == 4 || i == 5 || (k >= 84 && k < 90):
 		return genUnclean(r, i == 4)
+	case i >= 6 && i <= 9:
+		return genHistory(r, []string{"rerecord", "run", "startstop", "rematch"}[i-6])
+	case k >= 76 && k < 82:
+		return genHistory(r, "")
 	case k >= 96:
 		return genBig(r, 0)
 	case k < 8:
